@@ -70,6 +70,31 @@ DATAFLOW = [
 ]
 
 
+def projection_cases():
+    """'a loop order that projects into the output', with the output rank shape-partitioned and the input rank
+    following it: every loop order over S and one of {Q_i, W_i} per level that uses a follower level W_i anywhere
+    (the output coordinate of that level would have to be derived from w_i and s) must be rejected"""
+    import itertools
+    out = []
+    d = {"F": ["S"], "I": ["W"], "O": ["Q"]}
+    for expr in ("O[q] = I[q + s] * F[s]", "O[q] = I[2*q + s] * F[s]", "O[q] = I[q + 2*s] * F[s]"):
+        for dirs in (["uniform_shape(4)"], ["nway_shape(3)"], ["uniform_shape(4)", "uniform_shape(2)"]):
+            part = {"Q": dirs, "W": ["follow(Q)"]}
+            L = len(dirs)
+            for choice in itertools.product("QW", repeat=L + 1):
+                if all(c == "Q" for c in choice):
+                    continue
+                lv = ["%s%d" % (c, L - i) for i, c in enumerate(choice)]
+                for pos in range(len(lv) + 1):
+                    lo = lv[:pos] + ["S"] + lv[pos:]
+                    out.append(("project-into-output/%s/%s/lo=%s" % (expr.split("=")[1].strip(), "+".join(dirs), ",".join(lo)),
+                                d, [expr], {"partitioning": {"O": part}, "loop-order": {"O": lo}}, True))
+    return out
+
+
+DATAFLOW = DATAFLOW + projection_cases()
+
+
 def work(job):
     if job["kind"] == "dataflow":
         name, decl, exprs, mapping, must = job["case"]
